@@ -1,7 +1,8 @@
-"""usage: tools/keepmut.py <Cxx> <i> <caught-by text>   -- confirm a sub-agent's change in a scratch worktree and keep it under /verif/seeded/"""
+"""usage: [MUTDIR=/tmp/mut3] tools/keepmut.py <Cxx> <i> <caught-by text> [<dest index>]   -- confirm a sub-agent's change in a scratch worktree and keep it under /verif/seeded/"""
 import json, os, shutil, subprocess, sys
 pid, i, caught = sys.argv[1], sys.argv[2], sys.argv[3]
-src = '/tmp/mut/%s/out' % pid
+src = '%s/%s/out' % (os.environ.get('MUTDIR', '/tmp/mut'), pid)
+dest = sys.argv[4] if len(sys.argv) > 4 else i
 wt = '/tmp/confirm_%s_%s' % (pid, i)
 def sh(cmd, **k):
     return subprocess.run(cmd, shell=True, capture_output=True, text=True, **k)
@@ -18,7 +19,7 @@ finally:
 ok = (r0 == 0 and r1 == 1 and '118 passed' in t)
 print('demo clean rc=%d, demo mutated rc=%d, tests: %s -> %s' % (r0, r1, t, 'KEEP' if ok else 'REJECT'))
 if ok:
-    d = '/verif/seeded/%s-%s' % (pid, i)
+    d = '/verif/seeded/%s-%s' % (pid, dest)
     os.makedirs(d, exist_ok=True)
     shutil.copy('%s/mut%s.diff' % (src, i), d + '/patch.diff')
     shutil.copy('%s/demo%s.py' % (src, i), d + '/demo.py')
